@@ -46,6 +46,18 @@ fn main() {
             }
         }
     }
+    // complex integrands (bounded): both parts must be within tolerance
+    {
+        use nalgebra::Complex; type C = Complex<f64>;
+        let tol = 1e-8;
+        let cases: Vec<(&str, Box<dyn Fn(f64) -> C>, f64, f64, C)> = vec![
+            ("x + i sin(3x) on [0.5,2.5]", Box::new(|x: f64| C::new(x, (3.0 * x).sin())), 0.5, 2.5, C::new(3.0, ((1.5f64).cos() - (7.5f64).cos()) / 3.0)),
+            ("i x exp(x) on [0.5,2.5]", Box::new(|x: f64| C::new(0.0, x * x.exp())), 0.5, 2.5, C::new(0.0, 1.5 * (2.5f64).exp() + 0.5 * (0.5f64).exp())),
+        ];
+        for (name, f, a, b, exact) in cases.iter() {
+            if let Ok(v) = integrate_gaussian(*a, *b, |x: f64| f(x), tol) { if (v - *exact).norm() > 20.0 * tol { found.push(format!("integrate_gaussian complex {name}: error {:e} with tol {tol:e}", (v - *exact).norm())); } }
+        }
+    }
     if integrate_simpson(2.0, 1.0, |x: f64| x, 1e-6, 10).is_ok() { found.push("integrate_simpson accepted a reversed interval".into()); }
     if integrate_fixed(2.0, 1.0, |x: f64| x, 3).is_ok() { found.push("integrate_fixed accepted a reversed interval".into()); }
     match integrate_gaussian(2.0, 1.0, |x: f64| x * x, 1e-6) { Ok(v) => found.push(format!("integrate_gaussian accepted the reversed interval (2,1) and returned {v}")), Err(_) => {} }
